@@ -303,6 +303,25 @@ CLAIMS: dict = {
         technique='contract-based deductive verification: effect/frame log of the symbolically executed add code, SQL->FOL '
                   'for _precheck, path-condition obligations for the entry points (z3); bounded route sweep on real files',
         engines=['pyvc', 'sqlvc', 'bounded']),
+    'C16': dict(
+        category='other',
+        text='Two contracts decided on the AST of every function of the wn package (399 functions, re-read on every run): '
+             '(order) no value whose order comes from iterating a set reaches a return, yield, index, first-element, '
+             'join, early-exit or tie-breaking (min/max/sorted with key) sink - a conservative taint analysis with '
+             'sorted()/set()/sum()/any()/all()/len()/membership as the only cleansers; (purity) no function stores '
+             'into module-level mutable state (also through a local alias) except the connection pool. The sites '
+             'reported must be exactly the two reviewed ones listed with their justification in contracts/C16.py. '
+             'Entity ordering (__lt__/__eq__) is proved to depend on (type, rowid) only by symbolic execution.',
+        note='Static, per function and flow-insensitive: sets are followed through local names, annotations, module '
+             'constants and annotated return types, not through un-annotated parameters or attributes (A-ORDER-STATIC) - '
+             'so this is a checked coding contract, not a proof of the property. Observable determinism is explored by '
+             'the battery (every query/taxonomy/similarity/IC/validate/dump/export call on a generated database) in '
+             'subprocesses with 4 (quick) / 16 (thorough) PYTHONHASHSEED values, twice per process with other read-only '
+             'calls in between, and against fresh-process runs of configuration-dependent calls: bounded. Fixed while '
+             'building: F14-F18.',
+        technique='contract checking by static effect/taint analysis of the real AST (order-insensitivity and purity '
+                  'contracts) + symbolic execution of the entity comparison methods; bounded hash-seed replay battery',
+        engines=['ordercheck', 'pyvc', 'bounded']),
 }
 
 # property -> reason (every property that is not claimed)
